@@ -38,7 +38,7 @@ SHARD_TIMEOUT = 3000
 
 
 def shards(tier):
-    n = 40 if tier == "quick" else 100
+    n = 60 if tier == "quick" else 150
     out = []
     for c in COMPS + EXTRA:
         sid = f"{c['solver']}-{c['fam']}-{c['pen']}"
@@ -87,7 +87,7 @@ def edgy(draw, base):
         X[:, -1] = 0.                      # last CSC column empty
         case["X"] = X.tolist()
         case["flags"] = case.get("flags", []) + ["last-col-empty"]
-    if "p0" in case["solver"] and draw(st.booleans()):
+    if "p0" in case["solver"] and draw(st.integers(0, 3)) == 0:
         case["solver"]["p0"] = draw(st.sampled_from([X.shape[1], X.shape[1] + 3, 100]))
     if "max_iter" in case["solver"] and draw(st.booleans()):
         case["solver"]["max_iter"] = draw(st.sampled_from([1, 2, 3]))
@@ -103,7 +103,7 @@ def strategy(shard):
             return edgy(c01.lbfgs_case(shard["fam"]))
         return edgy(P.scalar_case(s, shard["fam"], shard["pen"], sizes=(3, 12, 1, 8)))
     if shard["kind"] == "group":
-        return edgy(P.group_case(s, shard["fam"], sizes=(3, 12, 1, 8)))
+        return edgy(P.group_case(s, shard["fam"], sizes=(3, 12, 4, 10)))
     return edgy(P.multitask_case(shard["pen"], sizes=(3, 12, 1, 8)))
 
 
